@@ -81,7 +81,10 @@ orc_opcode_set_get (const char *name)
   int i;
 
   for(i=0;i<n_opcode_sets;i++){
-    if (strcmp (opcode_sets[i].prefix, name) == 0) {
+    /* the stored prefix is cut to the size of the field: compare as much of
+     * the name as orc_opcode_register_static() kept */
+    if (strncmp (opcode_sets[i].prefix, name,
+            sizeof (opcode_sets[i].prefix) - 1) == 0) {
       return opcode_sets + i;
     }
   }
